@@ -7,7 +7,8 @@ TLC's verdicts into the VIOLATION / KNOWN-FINDING protocol and the evidence file
 import json, os, re, shutil, subprocess, sys, tempfile, time, hashlib
 
 VERIF = os.path.dirname(os.path.dirname(os.path.abspath(__file__)))
-REPO = "/repo"
+# the tree under test; VERIF_REPO lets the seeded-change runner point the checks at a scratch worktree
+REPO = os.environ.get("VERIF_REPO", "/repo")
 SPEC = os.path.join(VERIF, "spec")
 WORK = os.path.join(VERIF, ".work")
 GOENV = dict(os.environ, GOFLAGS="-mod=mod", GOPROXY="off", GOSUMDB="off", GOTOOLCHAIN="local",
@@ -30,6 +31,15 @@ def build_harness(work, race=False):
     hdir = os.path.join(VERIF, "harness")
     if not os.path.exists(os.path.join(hdir, "go.sum")) and os.path.exists(os.path.join(REPO, "go.sum")):
         shutil.copy(os.path.join(REPO, "go.sum"), os.path.join(hdir, "go.sum"))
+    if REPO != "/repo":
+        h2 = os.path.join(work, "harness")
+        if not os.path.isdir(h2):
+            shutil.copytree(hdir, h2)
+            with open(os.path.join(h2, "go.mod")) as f:
+                gm = f.read()
+            with open(os.path.join(h2, "go.mod"), "w") as f:
+                f.write(gm.replace("=> /repo", "=> " + REPO))
+        hdir = h2
     cmd = ["go", "build", "-tags", "verif"] + (["-race"] if race else []) + ["-o", out, "./jh"]
     r = subprocess.run(cmd, cwd=hdir, env=GOENV, capture_output=True, text=True)
     if r.returncode != 0:
